@@ -381,7 +381,7 @@ func c20Scenarios(thorough bool) []*explore.Scenario {
 func init() {
 	register(&Prop{ID: "C20", Level: "model_checking", Variant: "A", Scenarios: c20Scenarios,
 		Run: func(c *explore.Check, thorough bool) {
-			c.Rule = "every sequence of up to 4 (5) calls from {SetSessionCache, BuildHandshakeStateWithoutSession, SetSessionTicketExtension(real ticket of a previous connection), SetSessionState(forged from the known master secret), SetPskExtension(initialised extension of a previous TLS 1.3 session), BuildHandshakeState} followed by Handshake x spec kind {ticket extension only, ticket + pre_shared_key, neither} x {cache set at construction, unset} x server {TLS 1.2, TLS 1.3}, each call classified by a reference model of the documentation (legal / error expected / forbidden / unspecified): legal calls neither panic nor error; with sessions disabled the setters return an error; forbidden calls fail with an error or a documented guard panic; a legal order completes the handshake, carries the injected ticket / PSK identity byte-exact on the wire and resumes on both ends; plus 6 parrots x {SetSessionState(nil), the same after BuildHandshakeStateWithoutSession, no call} on a connection whose Config holds a warm session cache: after an accepted SetSessionState(nil) the session_ticket extension is empty and the connection does not resume (the control does). distinct = (configuration, call sequence)"
+			c.Rule = "every sequence of up to 4 (5) calls from {SetSessionCache, BuildHandshakeStateWithoutSession, SetSessionTicketExtension(real ticket of a previous connection), SetSessionState(forged from the known master secret), SetPskExtension(initialised extension of a previous TLS 1.3 session), BuildHandshakeState} followed by Handshake x spec kind {ticket extension only, ticket + pre_shared_key, neither} x {cache set at construction, unset} x server {TLS 1.2, TLS 1.3, TLS 1.3 now selecting another suite of the same hash than the session carries}, each call classified by a reference model of the documentation (legal / error expected / forbidden / unspecified): legal calls neither panic nor error; with sessions disabled the setters return an error; forbidden calls fail with an error or a documented guard panic; a legal order completes the handshake, carries the injected ticket / PSK identity byte-exact on the wire and resumes on both ends; plus 6 parrots x {SetSessionState(nil), the same after BuildHandshakeStateWithoutSession, no call} on a connection whose Config holds a warm session cache: after an accepted SetSessionState(nil) the session_ticket extension is empty and the connection does not resume (the control does). distinct = (configuration, call sequence)"
 			c.Assumptions = []string{"the legal/forbidden table encodes a reading of the godoc of BuildHandshakeState, BuildHandshakeStateWithoutSession and the setters (setters before the first BuildHandshakeState; at most one override; a cache must be set); orders the docs are silent about are recorded but not judged"}
 			runAll(c, c20Scenarios(thorough), 0)
 			c.Gate(c.Total.Counters["ticket_injections_judged"] > 50, "non-vacuity: %d ticket injections", c.Total.Counters["ticket_injections_judged"])
